@@ -111,6 +111,7 @@ fn opts_for(prop: &str, variant: &str, rng: &mut Rng, tier: Tier) -> WsOpts {
             o.file.alias = rng.chance(400);
         }
         "C16" => {
+            o.same_file_dups = rng.chance(300);
             o.dep_cycles = rng.chance(600);
             o.file.scopes = true;
             if rng.chance(350) {
